@@ -840,8 +840,9 @@ def _eval_mgr(case):
     def bad(key, msg):
         vs.append(core.viol("c20/mgr-" + key, "%s | case=%s" % (msg, {k: v for k, v in case.items() if k != "kind"}), case))
 
-    cs = build.settings(buGroups=list(case["buGroups"]), tempGroups=list(case["tempGroups"]), xsBlockRepresentation=case["rep"], disableBlockTypeExclusionInXsGeneration=bool(case["allTypes"]))
-    r = build.reactor(mgr_spec(case), cs=cs)
+    # the manager gets a settings object of its own (nothing shared with other executions)
+    cs = _fresh_cs({"rep": case["rep"], "allTypes": case["allTypes"], "bu": case["buGroups"], "temp": case["tempGroups"]}, {})
+    r = build.reactor(mgr_spec(case))
     blocks = r.core.getBlocks()
     blocks.sort(key=lambda b: (tuple(int(v) for v in b.parent.spatialLocator.getCompleteIndices()), int(b.spatialLocator.k)))
     for b, bu, fl in zip(blocks, case["bu"], case["flux"]):
@@ -1038,6 +1039,184 @@ def _eval_mgr_counted(case):
 
 
 # =============================================================================================
+# manager re-use: short histories on the SAME settings / manager objects, differential oracle
+# against a fresh settings + manager built from what is in effect
+
+HIST_CORE = {"xs": [["A", "A", "B"], ["A", "B", "B"]], "designs": [["fuel", "inner fuel", "plenum"], ["inner fuel", "fuel", "plenum"]]}
+HIST_BU = [0, 5, 0, 10, 0, 0, 5, 10, 0]
+HIST_FLUX = [1e14, 3e14, 1e14, 2e14, 1e14, 3e14, 3e14, 1e14, 2e14]
+HIST_BASE = {"rep": "Average", "allTypes": True, "bu": [5], "temp": []}
+ENTRY_FULL = {"geometry": "0D", "blockRepresentation": "Median", "validBlockTypes": ["fuel"]}
+ENTRY_INHERIT = {"geometry": "0D"}
+HIST_INITS = {
+    # settings in effect at the first use, explicit crossSectionControl entries
+    "defaults-only": (dict(HIST_BASE), {}),
+    "entry-inheriting": (dict(HIST_BASE), {"AA": ENTRY_INHERIT}),
+    "median-fuel": ({"rep": "Median", "allTypes": False, "bu": [5], "temp": [500]}, {}),
+}
+HIST_OPS_QUICK = [
+    ["rep", "Median"],
+    ["rep", "FluxWeightedAverage"],
+    ["excl"],  # toggle disableBlockTypeExclusionInXsGeneration
+    ["bu", [2]],
+    ["temp", [500]],
+    ["entry", "AA"],  # toggle an explicit (fully specified) crossSectionControl entry
+    ["newmgr"],  # a new manager on the same settings object (reads the group bounds)
+    ["bol"],  # interactBOL (applies representation / block-type exclusion)
+    ["use"],  # makeCrossSectionGroups + createRepresentativeBlocks, both compared with a fresh build
+    ["blockbu", 1, 10.0],
+    ["blockT", 0, 450.0],
+]
+HIST_OPS_THOROUGH = HIST_OPS_QUICK + [["rep", "Average"], ["bu", [5, 10]], ["temp", []], ["entry", "BA"], ["blockbu", 4, 0.0]]
+
+
+def _fresh_cs(eff, entries):
+    """A settings object that shares nothing with any other (Settings() deep-copies its defaults)."""
+    from armi import settings as S
+    from armi.physics.neutronics.crossSectionSettings import XSModelingOptions
+
+    cs = S.Settings().modified(
+        newSettings={"buGroups": list(eff["bu"]), "tempGroups": list(eff["temp"]), "xsBlockRepresentation": eff["rep"], "disableBlockTypeExclusionInXsGeneration": bool(eff["allTypes"]), "verbosity": "error", "branchVerbosity": "error"}
+    )
+    for xsID, kw in sorted(entries.items()):
+        cs["crossSectionControl"][xsID] = XSModelingOptions(xsID, **{k: (list(v) if isinstance(v, list) else v) for k, v in kw.items()})
+    return cs
+
+
+def _snapshot(mgr, coreNames):
+    """Partition, collection classes, candidates and representatives of one (re)grouping."""
+    snap = {}
+    try:
+        groups = mgr.makeCrossSectionGroups()
+    except Exception as e:
+        return {"outcome": "grouping raises %s" % type(e).__name__}
+    snap["partition"] = {k: sorted(m.getName() for m in c if m.getName() in coreNames) for k, c in groups.items()}
+    snap["foreign"] = {k: sorted(m.getType() for m in c if m.getName() not in coreNames) for k, c in groups.items()}
+    snap["class"] = {k: type(c).__name__ for k, c in groups.items()}
+    snap["candidates"] = {k: sorted(m.getName() for m in c.getCandidateBlocks()) for k, c in groups.items()}
+    try:
+        mgr.createRepresentativeBlocks()
+    except Exception as e:
+        snap["outcome"] = "createRepresentativeBlocks raises %s" % type(e).__name__
+        return snap
+    snap["outcome"] = "ok"
+    snap["reps"] = {k: intensive_obs(b) for k, b in mgr.representativeBlocks.items()}
+    snap["nT"] = {k: {n: float(t) for n, t in v.items()} for k, v in mgr.avgNucTemperatures.items()}
+    return snap
+
+
+def _eval_hist(case):
+    """case: {"kind": "hist", "init": name, "ops": [...]}. Returns (viols, number of compared uses)."""
+    from armi.physics.neutronics import crossSectionGroupManager as X
+    from armi.physics.neutronics.crossSectionSettings import XSModelingOptions
+    from mcverif import build, observe
+
+    vs = []
+    eff0, entries0 = HIST_INITS[case["init"]]
+    cur = dict(eff0)  # what the settings object says now
+    eff = dict(eff0)  # what is in effect (representation/exclusion: last interactBOL; bounds: manager construction)
+    entries = {k: dict(v) for k, v in entries0.items()}  # consulted live by the manager
+    r = build.reactor(mgr_spec(HIST_CORE))
+    blocks = r.core.getBlocks()
+    blocks.sort(key=lambda b: (tuple(int(v) for v in b.parent.spatialLocator.getCompleteIndices()), int(b.spatialLocator.k)))
+    for b, bu, fl in zip(blocks, HIST_BU, HIST_FLUX):
+        if b.p.massHmBOL > 0:
+            b.p.percentBu = float(bu)
+        b.p.flux = float(fl)
+    coreNames = {b.getName() for b in blocks}
+    cs = _fresh_cs(cur, entries)
+    mgr = X.CrossSectionGroupManager(r, cs)
+    mgr.interactBOL()
+    nuse = 0
+
+    def use(step):
+        nonlocal nuse
+        nuse += 1
+        got = _snapshot(mgr, coreNames)
+        fresh = X.CrossSectionGroupManager(r, _fresh_cs(eff, entries))
+        fresh.interactBOL()
+        want = _snapshot(fresh, coreNames)
+        for what in ("outcome", "class", "candidates", "partition", "foreign", "reps", "nT"):
+            a, b_ = got.get(what), want.get(what)
+            if a == b_:
+                continue
+            if what in ("reps", "nT") and a is not None and b_ is not None and not observe.diff(a, b_, limit=1, rtol=1e-12):
+                continue
+            if isinstance(a, dict) and isinstance(b_, dict):
+                ids = sorted(k for k in set(a) | set(b_) if a.get(k) != b_.get(k))
+            else:
+                ids = []
+            xid = ids[0] if ids else "?"
+            explicit = any(e[0] == xid[0] and (len(e) < 2 or len(xid) < 2 or e[1] <= xid[1]) for e in entries)
+            det = observe.diff(a, b_, limit=2) if what in ("reps", "nT") else "%r, a fresh manager on fresh settings gives %r" % (a.get(xid) if isinstance(a, dict) else a, b_.get(xid) if isinstance(b_, dict) else b_)
+            vs.append(
+                core.viol(
+                    "c20/reuse-differs-from-fresh/%s/%s" % ("explicit-entry" if explicit else "default-xsid", {"class": "collection-class", "reps": "representative", "nT": "nuclide-temperature"}.get(what, what)),
+                    "after history %s on the same settings/manager (init %s; in effect: %s, entries %s), use #%d: %s of XS ID %s is %s" % (case["ops"][: step + 1], case["init"], eff, sorted(entries), nuse, what, xid, det),
+                    {"kind": "hist", "init": case["init"], "ops": [list(o) for o in case["ops"][: step + 1]]},
+                )
+            )
+            break
+
+    use(-1)  # first use: everything is fresh anyway
+    for step, op in enumerate(case["ops"]):
+        k = op[0]
+        if k == "rep":
+            cur["rep"] = op[1]
+            cs["xsBlockRepresentation"] = op[1]
+        elif k == "excl":
+            cur["allTypes"] = not cur["allTypes"]
+            cs["disableBlockTypeExclusionInXsGeneration"] = cur["allTypes"]
+        elif k == "bu":
+            cur["bu"] = list(op[1])
+            cs["buGroups"] = list(op[1])
+        elif k == "temp":
+            cur["temp"] = list(op[1])
+            cs["tempGroups"] = list(op[1])
+        elif k == "entry":
+            if op[1] in entries:
+                del entries[op[1]]
+                del cs["crossSectionControl"][op[1]]
+            else:
+                entries[op[1]] = dict(ENTRY_FULL)
+                cs["crossSectionControl"][op[1]] = XSModelingOptions(op[1], **{kk: (list(v) if isinstance(v, list) else v) for kk, v in ENTRY_FULL.items()})
+        elif k == "newmgr":
+            mgr = X.CrossSectionGroupManager(r, cs)
+            eff["bu"], eff["temp"] = list(cur["bu"]), list(cur["temp"])
+        elif k == "bol":
+            mgr.interactBOL()
+            eff["rep"], eff["allTypes"] = cur["rep"], cur["allTypes"]
+        elif k == "blockbu":
+            blocks[op[1]].p.percentBu = float(op[2])
+        elif k == "blockT":
+            for c in blocks[op[1]]:
+                if c.name == "fuel":
+                    c.setTemperature(float(op[2]))
+        elif k == "use":
+            use(step)
+        else:
+            raise ValueError(k)
+    return vs, nuse
+
+
+def _eval_hist_counted(case):
+    vs, n = _eval_hist(case)
+    return vs[:4], n
+
+
+def hist_cases(ctx):
+    """Every history of length <= depth that ends in a use (only a use observes anything)."""
+    ops = HIST_OPS_QUICK if ctx.quick else HIST_OPS_THOROUGH
+    depth = 3 if ctx.quick else 4
+    out = []
+    for init in HIST_INITS:
+        for n in range(1, depth + 1):
+            for pre in itertools.product(ops, repeat=n - 1):
+                out.append({"kind": "hist", "init": init, "ops": [list(o) for o in pre] + [["use"]]})
+    return out
+
+
+# =============================================================================================
 
 
 def evaluate(case):
@@ -1052,6 +1231,8 @@ def evaluate(case):
         return _eval_chunk_case(case)
     if k == "mgr":
         return _eval_mgr(case)[0]
+    if k == "hist":
+        return _eval_hist(case)[0]
     raise ValueError(k)
 
 
@@ -1102,22 +1283,37 @@ def run(ctx):
         nm += n
     ctx.add_violations(_cap(mv))
     ctx.count("manager_cores", nm)
+    # ---- manager re-use histories
+    hc = ctx.order(hist_cases(ctx))
+    hres = core.pmap(MOD, "_eval_hist_counted", hc)
+    nh = nuses = 0
+    hv = []
+    for v, n in hres:
+        hv += v
+        nh += 1
+        nuses += n
+    hv.sort(key=lambda v: len(v["case"]["ops"]))
+    ctx.add_violations(_cap(hv))
+    ctx.count("reuse_histories", nh)
+    ctx.count("reuse_uses_compared_with_fresh_build", nuses)
     ctx.samples = [
         {"kind": "labels", "labels": ["A", "a", "Zz", "dA"]},
         {"kind": "coll", "members": sets[len(sets) // 3][0], "rep": sets[len(sets) // 3][1][1], "filter": ["fuel"], "variant": "base"},
         {"kind": "coll", "members": sets[-1][0], "rep": sets[-1][1][0], "filter": None, "variant": "dup"},
         mc[0],
+        hc[len(hc) // 2],
     ]
     ctx.coverage.update(
-        evaluations=nlab + nenv + nev + nm,
-        distinct_nontrivial=nnt + nm + nlab - 26,
-        rule="labels: every one- and two-letter label over [A-Za-z] (the 26 upper-case single letters counted trivial); collections: every multiset of 1-3 member states (kind x burnup x flux) within the pool bounds x representation x filter x variant {base, duplicated, rescaled}, one real createRepresentativeBlock call each, distinct by construction, non-trivial = at least two eligible members in different states; manager: one generated core per (xs assignment, design, burnup pattern, bounds, exclusion setting), representation/flux pattern rotating",
+        evaluations=nlab + nenv + nev + nm + nh,
+        distinct_nontrivial=nnt + nm + nlab - 26 + nh - len(HIST_INITS),
+        rule="labels: every one- and two-letter label over [A-Za-z] (the 26 upper-case single letters counted trivial); collections: every multiset of 1-3 member states (kind x burnup x flux) within the pool bounds x representation x filter x variant {base, duplicated, rescaled}, one real createRepresentativeBlock call each, distinct by construction, non-trivial = at least two eligible members in different states; manager: one generated core per (xs assignment, design, burnup pattern, bounds, exclusion setting), representation/flux pattern rotating; re-use: every history of at most 3 (quick) / 4 (thorough) operations ending in a use over {change representation, toggle block-type exclusion, change bu/temp bounds, toggle an explicit crossSectionControl entry, new manager on the same settings, interactBOL, use, change a block's burnup / fuel temperature} from 3 initial configurations on the SAME settings and manager objects, every use compared with a fresh settings+manager build of what is in effect (the use-only history of each initial configuration counted trivial)",
         exhaustive=True,
         member_sets=len(sets),
         member_kinds=list(KINDS_QUICK if ctx.quick else KINDS_THOROUGH),
         representations=NONFLUX_REPS + FLUX_REPS,
         filters=filters,
         manager_cores=nm,
+        reuse_histories=nh,
     )
     ctx.assumptions += [
         "member values come from finite alphabets: 2 compositions x fuel temperature {600,400} x height {25,20} (+ blanket, plenum, centre block with symmetry factor 3), burnup {0,5,10}, flux {0,1e14,3e14}; sets of at most 3 members (plus their duplication)",
@@ -1125,6 +1321,7 @@ def run(ctx):
         "SlabComponentsAverageBlockCollection and the duct-heterogeneous cylinder variant are not explored (no rectangular-slab blocks in the generator)",
         "reference model trusts per-component queries (getNumberDensities, getVolume, getArea, getMass, temperatureInC) and block parameters; the lumped-fission-product handling of the collections is not observed (blocks carry none)",
         "temperature-group bounds never coincide with a block temperature (floating point tie), burn-up bounds do",
+        "re-use histories: what is 'in effect' follows the documented read points (representation / block-type exclusion at interactBOL, group bounds at manager construction, crossSectionControl entries live); one fixed 3-assembly core",
     ]
 
 
